@@ -10,7 +10,8 @@ import sys
 import xml.etree.ElementTree as ET
 
 REPO = "/repo"
-BUILD = os.path.join(REPO, "_build")
+# VERIF_BASELINE_BUILD lets the lead run the same comparison against a scratch copy's build directory
+BUILD = os.environ.get("VERIF_BASELINE_BUILD", os.path.join(REPO, "_build"))
 BASE = "/root/.vp/BASELINE.json"
 
 
